@@ -6,6 +6,14 @@ _NOTE = ("Bounded: holds for all values within the bounds recorded in the eviden
 _TECH = "symbolic execution of the real Python code on z3-backed proxy values (BV64/Float64/Real), branch decisions and obligations decided by z3, counterexamples replayed concretely"
 
 CLAIMS = {
+    "C14": {
+        "text": "Bounded symbolic model checking of the refresh behaviour of both API generations: after the real handshake the console drops the link at a solver-chosen instant, its AC/zone state moves meanwhile (free record bytes), reconnects are refused a solver-chosen number of times (also: the loss shows up as a write error on a zero-retry or retried command); on the new connection the first two frames must be the AC-status and zone/group-status requests at the very instant of reconnection, a solver-chosen getter must equal the new report, and an unchanged refresh notifies nobody; AirTouch 4: with the instants of unsolicited group reports as z3 Reals, group-status requests must appear exactly at last report + 300 s and every 300 s of continued silence.",
+        "note": _NOTE, "technique": _TECH, "design_ref": "DESIGN.md section 6 C14",
+    },
+    "C15": {
+        "text": "Bounded symbolic model checking of shutdown() of both API generations with the real socket, heartbeat and AT4 poll, called at a solver-chosen instant in each phase (console refusing / connect in flight / handshake stalled at a chosen step / initialised with heartbeat armed / command held for a dead link / after a failed init): after it returns the simulated network is frozen and any attempt, open or write is a violation (a connect already in flight may complete but must be closed at once, unwritten), the virtual loop must go idle, sending must raise NotOpenError, every transport must be closed; a later init() must rebuild the same model, issue the six requests in order and run a heartbeat again.",
+        "note": _NOTE, "technique": _TECH, "design_ref": "DESIGN.md section 6 C15",
+    },
     "C12": {
         "text": "Bounded symbolic model checking of the notification paths of both API generations after the real handshake: recording subscribers on the AirTouch, an AC (general and AC-state-only), a zone and a second AC, in a solver-enumerated arrangement (once / twice / unsubscribed again; raising subscriber present or not); frame 1 repeats the last report bit for bit, frame 2 has free record bytes, frame 3 is a fixed different report. z3 shows: identical reports are silent, a changed exposed attribute notifies exactly the right subscribers with the right identifier exactly once, zone changes reach the owning AC's general subscribers but not its AC-state-only ones, unsubscribing stops calls, a raising subscriber starves nobody and later frames still notify.",
         "note": _NOTE, "technique": _TECH, "design_ref": "DESIGN.md section 6 C12",
